@@ -40,6 +40,9 @@ pub enum StreamMode {
     DirectDrop(u32),
     /// a plain thread sitting in the direct *blocking* recv() until the end of the stream
     DirectRecv,
+    /// a task that polls k values, then creates a stream with add_stream, drops the parent handle and
+    /// keeps polling the new stream until the end
+    PollAdd(u32),
 }
 
 #[derive(Clone, Debug)]
@@ -99,6 +102,10 @@ struct Shared {
     /// leaving consumers that have reached their quota / how many there are (simultaneous drop)
     leavers_ready: AtomicU32,
     leavers_total: u32,
+    /// set by the supervisor when tasks keep being woken without anybody making progress (a wake-up
+    /// storm): parked tasks then stay parked even if notified, so that the scenario can be judged
+    settle: AtomicBool,
+    polls: AtomicU64,
     receivers_alive: AtomicU32,
 }
 
@@ -133,7 +140,15 @@ pub fn gen_cfg(rng: &mut Rng, small: bool) -> FutCfg {
                 3 | 4 => StreamMode::Direct,
                 5 => StreamMode::PollDrop(1 + rng.below(3) as u32),
                 6 => StreamMode::DirectDrop(1 + rng.below(3) as u32),
-                _ => StreamMode::DirectRecv,
+                _ => {
+                    // add_stream during traffic only on a stream whose handle is the sole one: on a
+                    // parent that a sibling is consuming the call is the open finding of C10
+                    if fl == Flavour::Broadcast && k == 1 && rng.chance(2, 3) {
+                        StreamMode::PollAdd(1 + rng.below(3) as u32)
+                    } else {
+                        StreamMode::DirectRecv
+                    }
+                }
             };
             cs.push((mode, k == 1 && rng.chance(1, 3)));
         }
@@ -215,8 +230,9 @@ fn park(sh: &Shared, tid: usize, note: &api::TaskNote, before: u32) -> ParkExit 
     loop {
         let now = note.count.load(SeqCst);
         sh.note_now[tid].store(now, SeqCst);
-        if now != before {
+        if now != before && !sh.settle.load(SeqCst) {
             sh.state[tid].store(RUNNING, SeqCst);
+            sh.polls.fetch_add(1, SeqCst);
             return ParkExit::Notified;
         }
         if sh.probe[tid].load(SeqCst) == 1 {
@@ -257,8 +273,12 @@ fn probe_answer(sh: &Shared, tid: usize, progress: bool, what: &str, kind: &str,
             .streams
             .iter()
             .any(|s| s.iter().any(|c| matches!(c.0, StreamMode::PollDrop(_) | StreamMode::DirectDrop(_))));
+        let has_adder = cfg.streams.iter().any(|s| s.iter().any(|c| matches!(c.0, StreamMode::PollAdd(_))));
         let prop = if what == "Err(SendError)" {
             "C14,C13"
+        } else if has_adder {
+            // a stream was created with add_stream during this scenario: it must not cost anybody a wake-up
+            "C14,C10"
         } else if kind == "sink" && has_leaver {
             // a receiver left during this scenario: a send refused only because of it must be retried
             "C14,C11"
@@ -366,6 +386,10 @@ fn stream_thread(mut rx: RxH, mode: StreamMode, sh: &Shared, tid: usize, cfg: &F
         _ => None,
     };
     let direct = matches!(mode, StreamMode::Direct | StreamMode::DirectDrop(_));
+    let mut add_after = match mode {
+        StreamMode::PollAdd(k) => Some(k),
+        _ => None,
+    };
     let mut idle = 0u64;
     'outer: loop {
         if let Some(q) = quota {
@@ -408,6 +432,18 @@ fn stream_thread(mut rx: RxH, mode: StreamMode, sh: &Shared, tid: usize, cfg: &F
             RecvOut::Val(_) => {
                 got += 1;
                 sh.progress_ops.fetch_add(1, SeqCst);
+                if let Some(k) = add_after {
+                    if got >= k {
+                        add_after = None;
+                        if let Some(mut child) = rx.add_stream(false) {
+                            // same task: the supervisor keeps watching the same notification counter
+                            child.note = rx.note.clone();
+                            child.nh = rx.nh.clone();
+                            let parent = std::mem::replace(&mut rx, child);
+                            parent.drop_rx();
+                        }
+                    }
+                }
             }
             RecvOut::NotReady => loop {
                 match park(sh, tid, &rx.note.clone(), before) {
@@ -533,6 +569,8 @@ pub fn run_once(cfg: &FutCfg, shard: &mut Shard) -> (u64, bool, bool) {
         progress_ops: AtomicU64::new(0),
         is_task: (0..MAXT).map(|_| AtomicBool::new(false)).collect(),
         pending: std::sync::Mutex::new(Vec::new()),
+        settle: AtomicBool::new(false),
+        polls: AtomicU64::new(0),
         leavers_ready: AtomicU32::new(0),
         leavers_total: if cfg.sync_drop {
             cfg.streams.iter().map(|s| s.iter().filter(|c| matches!(c.0, StreamMode::PollDrop(_) | StreamMode::DirectDrop(_))).count() as u32).sum()
@@ -606,6 +644,8 @@ pub fn run_once(cfg: &FutCfg, shard: &mut Shard) -> (u64, bool, bool) {
     // ---- executor supervision: detect global quiescence, probe parked tasks
     let t0 = Instant::now();
     let mut parked_probed = 0u64;
+    let mut storm_progress = u64::MAX;
+    let mut storm_polls = 0u64;
     let mut inconclusive: Option<String> = None;
     let mut rounds = 0u64;
     loop {
@@ -637,6 +677,19 @@ pub fn run_once(cfg: &FutCfg, shard: &mut Shard) -> (u64, bool, bool) {
                 })
                 .collect()
         };
+        // wake-up storm: tasks are re-polled over and over while nothing makes progress
+        {
+            let p = shared.progress_ops.load(SeqCst);
+            let q = shared.polls.load(SeqCst);
+            if p != storm_progress {
+                storm_progress = p;
+                storm_polls = q;
+            } else if q > storm_polls + 50_000 && !shared.settle.load(SeqCst) {
+                shared.settle.store(true, SeqCst);
+                shard.stat("wakeup_storms_settled", 1);
+            }
+        }
+        let settled = shared.settle.load(SeqCst);
         let s1 = snap(&shared);
         if s1.iter().any(|x| x.0 == RUNNING) {
             continue;
@@ -661,8 +714,9 @@ pub fn run_once(cfg: &FutCfg, shard: &mut Shard) -> (u64, bool, bool) {
             }
             continue;
         }
-        // nobody is running; parked tasks must have no pending notification
-        if s1.iter().any(|x| x.0 == PARKED && x.1 != x.2) {
+        // nobody is running; parked tasks must have no pending notification (unless a storm was settled:
+        // then notified tasks simply stay parked and are not probed)
+        if !settled && s1.iter().any(|x| x.0 == PARKED && x.1 != x.2) {
             continue;
         }
         let p1 = shared.progress_ops.load(SeqCst);
@@ -680,6 +734,10 @@ pub fn run_once(cfg: &FutCfg, shard: &mut Shard) -> (u64, bool, bool) {
         let mut progressed = false;
         for t in 1..=nthreads {
             if shared.state[t].load(SeqCst) != PARKED {
+                continue;
+            }
+            if settled && s2[t - 1].1 != s2[t - 1].2 {
+                // it has been notified: not a candidate for "parked and never told"
                 continue;
             }
             shared.probe[t].store(1, SeqCst);
